@@ -31,13 +31,13 @@ PROPS = {
     'C01': dict(
         I=['c01.imem'],
         K=dict(quick=['c01_step_n7_k0', 'c01_step_n7_k1', 'c01_step_n7_k2', 'c01_step_n7_k3', 'c01_walk_n4', 'c01_hist_k2'], thorough=['c01_step_n8_k0', 'c01_step_n8_k1', 'c01_step_n8_k2', 'c01_step_n8_k3', 'c01_walk_n6', 'c01_hist_k3']),
-        S=dict(quick=[], thorough=['s_reads_byparent', 's_writes_addversion', 's_reopen']),
+        S=dict(quick=['s_writes_addversion', 's_reads_byparent'], thorough=['s_reads_byparent', 's_writes_addversion', 's_reopen']),
         bounds='induction step from every REACH-shaped state with chain <= 7 (thorough 8), 2 clients, any request with any 128-bit ids; walk at chain <= 4 (6); histories of 2 (3) requests from the empty store',
     ),
     'C02': dict(
         I=['c02.imem'],
         K=dict(quick=['c02_cas_n7'], thorough=['c02_cas_n8']),
-        S=dict(quick=[], thorough=['s_writes_addversion']),
+        S=dict(quick=['s_writes_addversion'], thorough=['s_writes_addversion']),
         bounds='every REACH-shaped state with chain <= 7 (8), 2 clients (known/unknown), arbitrary 128-bit parent and client id, payload <= 2 bytes',
     ),
     'C03': dict(
@@ -48,26 +48,26 @@ PROPS = {
     ),
     'C04': dict(
         K=dict(quick=['c04_atomic_ack_n7_k0', 'c04_atomic_ack_n4_k2', 'c04_atomic_ack_n4_rd'], thorough=['c04_atomic_ack_n8_k0', 'c04_atomic_ack_n7_k2', 'c04_atomic_ack_n4_rd']),
-        S=dict(quick=['s_exclusive'], thorough=['s_exclusive', 's_writes_newclient', 's_writes_snapshot', 's_writes_addversion']),
+        S=dict(quick=['s_exclusive', 's_writes_addversion', 's_writes_snapshot', 's_writes_newclient'], thorough=['s_exclusive', 's_writes_newclient', 's_writes_snapshot', 's_writes_addversion']),
         bounds='crash index over the first 14 storage calls of one operation from every REACH-shaped state; TRANSACTION-LEVEL crash model only (file-system crash points inside SQLite are not encodable)',
     ),
     'C05': dict(
         H=['c05'],
         K=dict(quick=['c05_fault_n3_k0', 'c05_fault_n3_k1', 'c05_fault_n3_k2', 'c05_fault_n3_k3', 'c05_begin_n3'], thorough=['c05_fault_n5_k0', 'c05_fault_n5_k1', 'c05_fault_n5_k2', 'c05_fault_n5_k3', 'c05_begin_n3', 'c05_fault2_n3_k0', 'c05_fault2_n3_k2']),
-        S=dict(quick=[], thorough=['s_faults']),
+        S=dict(quick=['s_faults'], thorough=['s_faults']),
         bounds='one failing storage call (thorough: two) at any of the first 12 calls, failing before or (commit) after taking effect; any operation; chain <= 4 (7)',
     ),
     'C06': dict(
         I=['c06.imem'],
         H=['c06'],
         K=dict(quick=['c06_roundtrip_n3'], thorough=['c06_roundtrip_n3']),
-        S=dict(quick=[], thorough=['s_blob']),
+        S=dict(quick=['s_blob'], thorough=['s_blob']),
         bounds='payload and snapshot of symbolic length 0..2 and symbolic bytes through the compiled Server and the SQLite glue; longer payloads (page boundaries up to 100 MiB) are outside the claim',
     ),
     'C07': dict(
         I=['c07.imem'],
         K=dict(quick=['c07_frame_n7_k0', 'c07_frame_n7_k2', 'c07_frame_n4_rd'], thorough=['c07_frame_n8_k0', 'c07_frame_n8_k2', 'c07_frame_n4_rd']),
-        S=dict(quick=[], thorough=['s_writes_addversion', 's_reopen']),
+        S=dict(quick=['s_writes_addversion', 's_reopen'], thorough=['s_writes_addversion', 's_reopen']),
         bounds='every REACH-shaped state with chain <= 7 (8), any later request of either client, every earlier version re-read',
     ),
     'C08': dict(
@@ -95,7 +95,7 @@ PROPS = {
         I=['c02.imem', 'c11.imem set_snapshot: metadata'],
         M=True,
         K=dict(quick=['c12_wiring_n2'], thorough=['c12_wiring_n2']),
-        S=dict(quick=[], thorough=['s_writes_addversion', 's_writes_snapshot']),
+        S=dict(quick=['s_writes_addversion', 's_writes_snapshot'], thorough=['s_writes_addversion', 's_writes_snapshot']),
         bounds='threshold kernels: ALL 2^64 x 2^64 (days) and 2^32 x 2^32 (versions) inputs, dev and release overflow settings (loop-free, full bit-width); wiring: symbolic config and counter, ages from an 8-entry table, chain <= 2',
     ),
     'C13': dict(
@@ -119,7 +119,7 @@ PROPS = {
         H=['c15'],
         I=['c18.imem'],
         K=dict(quick=['c18_frame_n7_k0', 'c18_frame_n7_k1', 'c18_frame_n7_k2', 'c18_frame_n7_k3'], thorough=['c18_frame_n8_k0', 'c18_frame_n8_k1', 'c18_frame_n8_k2', 'c18_frame_n8_k3']),
-        S=dict(quick=[], thorough=['s_reads_client', 's_reads_snapdata', 's_reads_byparent', 's_reads_byid']),
+        S=dict(quick=['s_reads_client', 's_reads_snapdata', 's_reads_byparent', 's_reads_byid'], thorough=['s_reads_client', 's_reads_snapdata', 's_reads_byparent', 's_reads_byid']),
         bounds='every REACH-shaped state with chain <= 7 (8), every request; all non-mutating outcomes',
     ),
     'C19': dict(
